@@ -52,6 +52,12 @@ CMP = {
 }
 
 
+INT_HELPERS = {
+    'checked_floordiv_i32': "ensures res matches Some(v) ==> is_floor_quot(l as int, r as int, v as int),",
+    'checked_floormod_i32': "ensures res matches Some(v) ==> is_floor_rem(l as int, r as int, v as int),",
+}
+
+
 def common_rewrites(sn, erased_pred):
     rules.strip_vis_attrs(sn)
     rules.diagnostics(sn)
@@ -72,7 +78,7 @@ def build_verus(run):
     variants = rules.erase_enum_payloads(en, SCALAR)
     erased = [v for (v, kind, tys) in variants if any('Opaque' in t for t in tys)]
     pred = _binds_erased(erased)
-    unit.raw("verus! {\n")
+    unit.raw("verus! {\nuse OpKind::*;\n")
     unit.add(en)
 
     # From<i32>, From<bool>: extracted bodies, spec given through vstd's FromSpecImpl
@@ -96,6 +102,14 @@ impl vstd::std_specs::convert::FromSpecImpl<bool> for ValueObj {
         unit.add(f)
         unit.raw("}\n")
 
+    # integer floor helpers (value.rs): verified here, used by try_floordiv / try_mod through their contract
+    for hname, spec in INT_HELPERS.items():
+        h = Snippet(src.fn(hname), hname)
+        rules.strip_vis_attrs(h)
+        h.contract(spec)
+        h.body_prologue("proof { lemma_trunc_i32(l as int, r as int); }")
+        unit.add(h)
+
     unit.raw("impl ValueObj {\n")
     specs = dict(ARITH)
     specs.update(CMP)
@@ -112,13 +126,102 @@ impl vstd::std_specs::convert::FromSpecImpl<bool> for ValueObj {
                 c = base.copy('%s[%s,%s]' % (fname, a, b))
                 c.rename_fn('%s__%s_%s' % (fname, a, b))
                 c.contract("requires self is %s, other is %s,\n    ensures %s," % (a, b, post))
+                if fname in ('try_floordiv', 'try_mod'):
+                    c.body_prologue("broadcast use lemma_floor_quot_unique, lemma_floor_rem_unique, lemma_py_mod_pos;")
                 unit.add(c)
                 n_copies += 1
                 if n_copies % 40 == 1:
                     run.sample({"function": fname, "class": [a, b], "ensures": ' '.join(post.split())})
     unit.raw("}\n")
+    # eval.rs: eval_unary_val (unary +, -, not on constants)
+    esrc = Source(run.repo, EVAL_RS)
+    tsrc = Source(run.repo, 'crates/erg_compiler/ty/typaram.rs')
+    ok = Snippet(tsrc.item('enum', 'OpKind'), 'enum OpKind')
+    rules.erase_enum_payloads(ok, set())
+    unit.add(ok)
+    u = Snippet(esrc.fn('eval_unary_val', impl=r'Context'), 'eval_unary_val')
+    rules.strip_vis_attrs(u)
+    _eval_errors(u)
+    n_match = len(re.findall(r'\bmatch\b', u.text))
+    for k in range(n_match):
+        u.erase_arms('R2', pred, match_ordinal=k)
+    u.rw('R8', r'\b(\w+)\.checked_neg\(\)', r'w_i32_checked_neg(\1)')
+    u.contract("""ensures
+        res matches Ok(v) ==> (
+            ((op is Neg && is_intlike(val)) ==> (is_intlike(v) && ival(v) == -ival(val)))
+            && ((op is Pos && is_intlike(val)) ==> v == val)
+            && (((op is Not || op is Invert) && val is Bool) ==> (v is Bool && ival(v) == 1 - ival(val)))
+            && (op is Neg && val is Inf ==> v is NegInf) && (op is Neg && val is NegInf ==> v is Inf)
+        ),
+        (val is Bool && (op is Neg || op is Pos)) ==> res is Err,""")
+    unit.raw("impl Context {\n")
+    unit.add(u)
+    unit.raw("}\n")
+    run.sample({"function": "Context::eval_unary_val", "ensures": "Ok(v) with op=Neg on Int/Nat => ival(v) == -ival(val); never panics"})
     unit.raw("} // verus!\n")
     return unit
+
+
+def _eval_errors(sn):
+    """R3 for eval.rs: error-value construction -> ext_eval_error()."""
+    from vlib.extract import make_mask, match_close
+    for pat, repl in ((r'\bEvalErrors::from\s*\(', 'ext_eval_error()'), (r'\bfeature_error!\s*\(', 'Err(ext_eval_error())'),
+                      (r'\bunreachable_error!\s*\(', 'Err(ext_eval_error())')):
+        while True:
+            mask = make_mask(sn.text)
+            m = re.search(pat, mask)
+            if not m:
+                break
+            cp = match_close(mask, m.end() - 1)
+            sn.replace_range('R3', m.start(), cp + 1, repl, "%s..) -> %s" % (pat, repl))
+
+
+ASSUMED_FLOAT_HELPERS = [
+    "checked_truediv(l, r) returns Some(l / r) (IEEE-754 binary64 quotient) when r != 0.0  (value part assumed: CBMC does not decide full-domain f64 division in budget; the None-iff-zero part is proved)",
+    "float_divmod(l, r) returns CPython's float_divmod(l, r) when r != 0.0  (value part assumed, same reason; the None-iff-zero part is proved; the body is a transcription of Objects/floatobject.c)",
+    "f64::powf / powi are not modelled by CBMC: try_pow Float classes are not carried",
+]
+
+
+def run_kani(run):
+    from units.C04 import kani as k
+    from units.C04 import cex
+    unit, hs = k.build(run)
+    if run.tier != 'thorough':
+        skipped = [h for h in hs if h[1].startswith('try_mul[')]
+        hs = [h for h in hs if not h[1].startswith('try_mul[')]
+        run.extra["kani_harnesses_left_to_thorough_tier"] = [h[1] for h in skipped]
+    res = unit.run([h[0] for h in hs], jobs=14, timeout_s=900 if run.tier == 'thorough' else 300)
+    run.note_functions(unit.snippets)
+    for a in ASSUMED_FLOAT_HELPERS:
+        if a not in run.trusted:
+            run.trusted.append(a)
+    for (h, label, spec) in hs:
+        r = res[h]
+        key_base = label
+        if r.status == 'SUCCESS':
+            bad_cover = [c for c in r.covers if c[1] != 'SATISFIED']
+            if bad_cover or not r.covers:
+                run.undecided.append("kani %s: vacuity guard: cover not satisfied %r" % (h, bad_cover))
+                continue
+            if r.unwinding:
+                run.undecided.append("kani %s: unexpected unwinding assertion in a loop-free harness" % h)
+                continue
+            run.add_obligation(key_base, 'kani', True, time_s=r.time_s, cmd=r.cmd.replace(h, '<harness>'))
+            if len(run.samples) < 10 and label.endswith('Float]'):
+                run.sample({"function": label, "backend": "kani (loop-free, full domain)", "ensures": spec})
+        elif r.status == 'FAILURE':
+            descs = sorted(set(d for (d, _) in r.failed))
+            if any('R2-erased arm reached' in d or 'is not currently supported' in d or 'unsupported' in d.lower() for d in descs):
+                run.undecided.append("kani %s: %s" % (h, descs[:2]))
+                continue
+            key = "%s|kani|%s" % (label, descs[0][:100] if descs else 'failed')
+            run.add_obligation(key, 'kani', False,
+                               detail={"msg": "Kani harness %s FAILED: %s" % (h, '; '.join("%s @ %s" % f for f in r.failed[:6])), "rendered": r.log_tail[-2500:]},
+                               time_s=r.time_s, cmd=r.cmd.replace(h, '<harness>'))
+            run.failed[-1]["cex_finder"] = (lambda f, h=h, label=label: cex.find_kani(run, unit, h, label, f))
+        else:
+            run.undecided.append("kani %s: %s %s" % (h, r.status, r.log_tail[-300:].replace('\n', ' ') if r.status == 'ERROR' else ''))
 
 
 def run(run, replay=None):
@@ -126,3 +229,4 @@ def run(run, replay=None):
     res = unit.run(rlimit=30)
     from units.C04 import cex
     run.add_verus(unit, res, cex_finder=lambda f: cex.find(run, f))
+    run_kani(run)
